@@ -215,6 +215,7 @@ class Endpoint:
         self.pending_event = None
         self.status_replies = []
         self.escaped = []        # exceptions that left an entry point
+        self.contained = []      # exceptions the loop's catch-all contained (messages)
         self.steps = 0
         self.conf_dict = conf_dict
         world.current = self
@@ -417,7 +418,7 @@ class World:
         self._saved = {
             'urandom': os.urandom, 'SystemRandom': M.SystemRandom, 'ikesa.random': IKESA.random, 'ikesa.time': IKESA.time, 'ikesa.traceback': IKESA.traceback,
             'xfrm.random': X.random, 'conf.random': CONF.random, 'send_recv': X.Xfrm.__dict__.get('send_recv'),
-            'get_socket': X.Xfrm.__dict__.get('get_socket'), 'ctrl.socket': CTRL.socket, 'ctrl.select': CTRL.select,
+            'get_socket': X.Xfrm.__dict__.get('get_socket'), 'ctrl.socket': CTRL.socket, 'ctrl.select': CTRL.select, 'ctrl.logging': CTRL.logging,
             'log_disable': logging.root.manager.disable, 'log_level': logging.root.level,
         }
         w.side = random.Random(12345)
@@ -438,6 +439,17 @@ class World:
             SOCK_STREAM=real_socket.SOCK_STREAM, SOL_SOCKET=real_socket.SOL_SOCKET, SO_REUSEADDR=real_socket.SO_REUSEADDR,
             gaierror=real_socket.gaierror, error=real_socket.error, timeout=real_socket.timeout)
         CTRL.socket = shim
+        real_logging = logging
+
+        class LogShim:
+            def __getattr__(self, name):
+                return getattr(real_logging, name)
+
+            def error(self, msg, *a, **k):
+                if str(msg).startswith('Unexpected error'):
+                    w.current.contained.append(str(msg)[:200])
+                return real_logging.error(msg, *a, **k)
+        CTRL.logging = LogShim()
         logging.indent = None
         if capture_logs:
             self.capture = LogCapture()
@@ -463,6 +475,7 @@ class World:
             else:
                 setattr(X.Xfrm, name, s[key])
         CTRL.socket, CTRL.select = s['ctrl.socket'], s['ctrl.select']
+        CTRL.logging = s['ctrl.logging']
         if self.capture is not None:
             logging.root.removeHandler(self.capture)
             logging.root.setLevel(s['log_level'])
